@@ -1,3 +1,3 @@
 """Importing this package registers every rule."""
 
-from . import algebra, determinism, formatter, jit, naming  # noqa: F401
+from . import algebra, cli, determinism, formatter, jit, naming, robust  # noqa: F401
